@@ -13,6 +13,7 @@ pub mod c07;
 pub mod c08;
 pub mod c09;
 pub mod c10;
+pub mod c11;
 pub mod c12;
 pub mod c13;
 pub mod c14;
@@ -62,7 +63,7 @@ pub fn dispatch(name: &str, ctx: &Ctx) -> Option<Outcome> {
     crate::util::set_label(name);
     Some(match name {
         "c01" => if ctx.args.str("part", "freerun") == "serial" { serialchk::run(ctx, "c01") } else { c01::run(ctx) },
-        "c11" => serialchk::run(ctx, "c11"),
+        "c11" => if ctx.args.str("part", "serial") == "hammer" { c11::run(ctx) } else { serialchk::run(ctx, "c11") },
         "c02" => c02::run(ctx),
         "c03" => c03::run(ctx),
         "c04" => c04::run(ctx),
